@@ -626,8 +626,11 @@ def classifier_cases(ctx, a_csr, X, labels, cfg):
                              optimizer=cfg['optimizer'], early_stopping=cfg.get('early_stopping', False),
                              patience=cfg.get('patience', 10))
 
+    holder = {}
+
     def fit(g=None, rec=None, **extra):
         g = build() if g is None else g
+        holder['g'] = g
         if rec is not None:
             orig = g._sample_nodes
 
@@ -648,6 +651,12 @@ def classifier_cases(ctx, a_csr, X, labels, cfg):
         impl = g if isinstance(g, str) else 'ok'
         out.append(Case(('fit-refused', afmt, xfmt), dict(sig, check='check_format'), 'c19.check_format other', impl, None,
                         False, desc, canon='exact'))
+        return out
+    if isinstance(g, str) and fit_kw['validation'] and getattr(holder.get('g'), 'train_mask', None) is not None \
+            and not holder['g'].train_mask.any():
+        # the validation split took every labelled node: fit refuses (ValueError from the accuracy score); not a
+        # configuration the property speaks about
+        ctx.count('classifier:validation-left-no-training-node')
         return out
     if isinstance(g, str) or not rec:
         ctx.spec_fail(dict(sig, check='fit'), desc, {'fit': g if isinstance(g, str) else '_sample_nodes not called'})
